@@ -259,14 +259,15 @@ def r25(text):
     return re.subn(r"\bconst\s+(\w+)\s*:\s*&('static\s+)?\[u8\]\s*=\s*(b\"(?:[^\"\\]|\\.)*\")\s*;", rep, text)
 
 
-@rule("R6", "Ghost wake log: `w.wake()` -> `w.wake(log)`, and the functions on the path thread a ghost parameter "
-            "`log: &mut Ghost<Seq<u64>>` (`self.flush()` -> `self.flush(log)`, `self.flush_helper(b)` -> `self.flush_helper(b, log)`); "
-            "ghost-only instrumentation so that 'the taken waker is woken' can be a postcondition.")
+@rule("R6", "Ghost wake log: `w.wake()` -> `w.wake(log, seen, Ghost(fp(&self.shared)))`, and the functions on the path thread the ghost parameters "
+            "`log: &mut Ghost<Seq<u64>>` (ids of the wakers woken) and `seen: &mut Ghost<Seq<int>>` (a fingerprint of the shared state at the moment of each wake-up): "
+            "`self.flush()` -> `self.flush(log, seen)`, `self.flush_helper(b)` -> `self.flush_helper(b, log, seen)`; ghost-only instrumentation so that "
+            "'the taken waker is woken' and 'it is woken only once the state it announces is in place' can be postconditions.")
 def r6(text):
     return _subn([
-        (r"\.wake\(\)", ".wake(log)"),
-        (r"\bself\.flush\(\)", "self.flush(log)"),
-        (r"\bself\.flush_helper\((\w+)\)", r"self.flush_helper(\1, log)"),
+        (r"\.wake\(\)", ".wake(log, seen, Ghost(fp(&self.shared)))"),
+        (r"\bself\.flush\(\)", "self.flush(log, seen)"),
+        (r"\bself\.flush_helper\((\w+)\)", r"self.flush_helper(\1, log, seen)"),
     ], text)
 
 
